@@ -221,6 +221,14 @@ func (s *Sim) Stamp() (time.Duration, uint64) {
 	return s.now, s.seq
 }
 
+// AddSlack accounts for a delay that another part of the simulator injected (a write that
+// stalled inside the call): oracles add the total to their time bounds.
+func (s *Sim) AddSlack(d time.Duration) {
+	s.mu.Lock()
+	s.lateTotal += d
+	s.mu.Unlock()
+}
+
 // LateTotal is the simulator-injected slack (timer lateness + spin-guard jumps) so far.
 func (s *Sim) LateTotal() time.Duration {
 	s.mu.Lock()
